@@ -260,6 +260,52 @@ func Gen(r *hx.Rng, tier string, w io.Writer) {
 		}
 	}
 
+	// --- applied first (P2P), observed on the DA layer later: the blobs of blocks the node already holds must still be
+	// recorded as DA-included when the scan finds them; with restarts / crashes in between
+	for variant := 0; variant < 8; variant++ {
+		ih := uint64(1 + variant%3)
+		dastart := uint64(variant % 2 * 2)
+		g.reset(ih, dastart)
+		g.produce(1) // ih+1
+		g.produce(variant % 2)
+		g.produce(1)
+		var items []string
+		for k := g.ih; k <= g.top(); k++ {
+			items = append(items, fmt.Sprintf("H%d", k))
+			items = append(items, fmt.Sprintf("D%d", k)) // data of an empty block: ignored
+		}
+		if variant%4 < 2 {
+			g.op("p2p items=%s", strings.Join(items, ","))
+		} else { // data first, then headers; one block is left to the DA layer
+			var hs, ds []string
+			for _, it := range items[:len(items)-2] {
+				if it[0] == 'H' {
+					hs = append(hs, it)
+				} else {
+					ds = append(ds, it)
+				}
+			}
+			g.op("p2p items=%s", strings.Join(append(ds, hs...), ","))
+		}
+		switch variant / 2 % 4 {
+		case 1:
+			g.op("restart")
+		case 2:
+			g.op("crash keep=%d", r.Intn(4))
+		case 3:
+			g.op("crash keep=99")
+		}
+		g.spread(g.parts(), dastart+1, 1+r.Intn(4), variant%2 == 1)
+		g.op("run")
+		g.op("show")
+		if variant%2 == 0 {
+			g.op("crash keep=%d", r.Intn(7))
+		} else {
+			g.op("restart")
+		}
+		g.op("run")
+	}
+
 	// --- a crash at every write boundary of the block applications of one run, followed by a run
 	shapes := [][]int{{1, 1}, {0, 1}}
 	if thorough {
@@ -347,6 +393,13 @@ func Gen(r *hx.Rng, tier string, w io.Writer) {
 				if lo == 0 && r.Bool() {
 					lo = 1
 				}
+			}
+			if r.Chance(20) { // some parts arrive over P2P first
+				var its []string
+				for _, pi := range r.Perm(len(parts))[:1+r.Intn(len(parts))] {
+					its = append(its, parts[pi])
+				}
+				g.op("p2p items=%s", strings.Join(its, ","))
 			}
 			g.spread(now, lo, 1+r.Intn(5), r.Chance(60))
 			if r.Chance(25) {
